@@ -392,4 +392,4 @@ REQUIRED_OUTCOMES = ("calculate_timeout_when:ceil", "calculate_timeout_when:exac
 
 def bounds(tier):
     return {"fp": "now in [0, 2^52], timeout in (0, 2^31], all finite doubles; threshold 5",
-            "faults": "stall phase in " + str(PHASES) + "; timeout kind in total/connect/sock_read/none; value in {1,3,7} s; caller cancel on/off; idle 0/10 s before the follow-up request; read_bufsize=4"}
+            "dns": "3 (quick) / 4 requests resolving one uncached host through the real TCPConnector._resolve_host with a gated resolver; script of 5 / 7 steps over {start, cancel any of them, lookup succeeds, lookup fails}, each step optionally in the same loop iteration as the next: nobody else is cancelled or failed, nothing stays behind", "faults": "stall phase in " + str(PHASES) + "; timeout kind in total/connect/sock_read/none; value in {1,3,7} s; caller cancel on/off; idle 0/10 s before the follow-up request; read_bufsize=4"}
